@@ -1,5 +1,945 @@
-(** * ObsProofs: proofs of the C08 statements (to be filled). *)
+(** * ObsProofs: proofs of the C08 statements. *)
 From Ark Require Import Model.Base Model.Mask Model.Pool Model.World Proofs.ObsSpec.
+From RecordUpdate Require Import RecordSet.
+Import RecordSetNotations.
+From Coq Require Import Lia Permutation.
+
+(** ** Association lists *)
+
+Lemma afind_aset : forall V k k' (v : V) m,
+  afind k' (aset k v m) = if Nat.eqb k k' then Some v else afind k' m.
+Proof.
+  induction m as [|[k0 v0] m IH]; simpl.
+  - reflexivity.
+  - destruct (Nat.eqb_spec k0 k); simpl.
+    + subst. destruct (Nat.eqb_spec k k'); reflexivity.
+    + rewrite IH. destruct (Nat.eqb_spec k0 k'); destruct (Nat.eqb_spec k k'); subst; try reflexivity; congruence.
+Qed.
+
+Lemma keys_aset : forall V k (v : V) m k',
+  In k' (map fst (aset k v m)) <-> k' = k \/ In k' (map fst m).
+Proof.
+  induction m as [|[k0 v0] m IH]; simpl; intros.
+  - intuition.
+  - destruct (Nat.eqb_spec k0 k); simpl.
+    + subst. intuition.
+    + rewrite IH. intuition.
+Qed.
+
+Lemma keys_aset_nodup : forall V k (v : V) m, NoDup (map fst m) -> NoDup (map fst (aset k v m)).
+Proof.
+  induction m as [|[k0 v0] m IH]; simpl; intros H.
+  - constructor; [intros []|constructor].
+  - inversion H; subst. destruct (Nat.eqb_spec k0 k); simpl.
+    + subst. constructor; auto.
+    + constructor; auto. rewrite keys_aset. intros [E|E]; [congruence|auto].
+Qed.
+
+Definition lsum (m : list (nat * list nat)) : nat := fold_right (fun kv acc => length (snd kv) + acc) 0 m.
+
+Lemma fold_left_lsum : forall m a, fold_left (fun acc (kv : nat * list nat) => acc + length (snd kv)) m a = a + lsum m.
+Proof. induction m; simpl; intros; [lia|]. rewrite IHm. lia. Qed.
+
+Definition aget (k : nat) (m : list (nat * list nat)) : list nat :=
+  match afind k m with Some l => l | None => [] end.
+
+Lemma lsum_aset : forall k v m, lsum (aset k v m) + length (aget k m) = lsum m + length v.
+Proof.
+  unfold aget. induction m as [|[k0 v0] m IH]; simpl.
+  - lia.
+  - destruct (Nat.eqb_spec k0 k); simpl; lia.
+Qed.
+
+Lemma lsum_ge : forall k m, length (aget k m) <= lsum m.
+Proof.
+  unfold aget. induction m as [|[k0 v0] m IH]; simpl; [lia|].
+  destruct (Nat.eqb_spec k0 k); simpl; lia.
+Qed.
+
+Lemma afind_in : forall (m : list (nat * list nat)) k l, NoDup (map fst m) -> In (k, l) m -> afind k m = Some l.
+Proof.
+  induction m as [|[k0 v0] m IH]; simpl; intros k l Hn Hi; [tauto|].
+  inversion Hn; subst. destruct Hi as [E|Hi].
+  - inversion E; subst. rewrite Nat.eqb_refl. reflexivity.
+  - destruct (Nat.eqb_spec k0 k).
+    + subst. exfalso. apply H1. apply (in_map fst) in Hi. exact Hi.
+    + auto.
+Qed.
+
+Lemma lsum_zero : forall m, NoDup (map fst m) -> (forall k, aget k m = []) -> lsum m = 0.
+Proof.
+  intros m Hn H.
+  assert (forall kv, In kv m -> snd kv = []) as Hall.
+  { intros [k l] Hi. simpl. specialize (H k). unfold aget in H. rewrite (afind_in _ _ _ Hn Hi) in H. exact H. }
+  clear H Hn. induction m as [|kv m IH]; simpl; [reflexivity|].
+  rewrite (Hall kv) by (left; reflexivity). simpl. apply IH. intros; apply Hall; right; assumption.
+Qed.
+
+(** ** upd / updf *)
+
+Lemma nth_error_upd : forall A (l : list A) i x j,
+  nth_error (upd i x l) j = if Nat.eqb j i then match nth_error l j with Some _ => Some x | None => None end else nth_error l j.
+Proof.
+  induction l as [|h t IH]; intros i x j; simpl.
+  - destruct (Nat.eqb j i); destruct i, j; reflexivity.
+  - destruct i, j; simpl; try reflexivity. apply IH.
+Qed.
+
+Lemma nth_error_updf : forall A (l : list A) i f j,
+  nth_error (updf i f l) j = if Nat.eqb j i then option_map f (nth_error l j) else nth_error l j.
+Proof.
+  intros. unfold updf. destruct (nth_error l i) eqn:E.
+  - rewrite nth_error_upd. destruct (Nat.eqb_spec j i); [subst; rewrite E|]; reflexivity.
+  - destruct (Nat.eqb_spec j i); [subst; rewrite E|]; reflexivity.
+Qed.
+
+(** ** swap-remove *)
+
+Lemma index_of_split : forall x l i, index_of x l = Some i -> exists a b, l = a ++ x :: b /\ length a = i.
+Proof.
+  induction l as [|h t IH]; simpl; intros i H; [discriminate|].
+  destruct (Nat.eqb_spec h x).
+  - inversion H; subst. exists [], t. auto.
+  - destruct (index_of x t) eqn:E; [|discriminate]. inversion H; subst.
+    destruct (IH _ eq_refl) as (a & b & -> & Hl). exists (h :: a), b. simpl. auto.
+Qed.
+
+Lemma firstn_len_app : forall A (a r : list A), firstn (length a) (a ++ r) = a.
+Proof. induction a; simpl; intros; [destruct r; reflexivity|]. f_equal. apply IHa. Qed.
+
+Lemma upd_app_mid : forall A (a : list A) x y r, upd (length a) y (a ++ x :: r) = a ++ y :: r.
+Proof. induction a; simpl; intros; [reflexivity|]. f_equal. apply IHa. Qed.
+
+Definition swap_remove (idx : nat) (l : list nat) : list nat :=
+  let last := length l - 1 in
+  let l1 := if Nat.eqb idx last then l else match nth_error l last with Some x => upd idx x l | None => l end in
+  firstn last l1.
+
+Lemma swap_remove_perm : forall oi l idx, index_of oi l = Some idx ->
+  Permutation l (oi :: swap_remove idx l) /\ length (swap_remove idx l) = length l - 1.
+Proof.
+  intros oi l idx H. destruct (index_of_split _ _ _ H) as (a & b & -> & Hl). subst idx.
+  unfold swap_remove.
+  destruct (exists_last (l:=oi :: b)) as (b' & z & Hb); [discriminate|].
+  destruct b' as [|y b'].
+  - simpl in Hb. inversion Hb; subst. 
+    replace (length (a ++ [z]) - 1) with (length a) by (rewrite app_length; simpl; lia).
+    rewrite Nat.eqb_refl. rewrite firstn_len_app. split; [|reflexivity].
+    symmetry. apply Permutation_cons_append.
+  - simpl in Hb. inversion Hb; subst y. subst b. clear Hb.
+    replace (length (a ++ oi :: b' ++ [z]) - 1) with (length (a ++ oi :: b')) by (repeat (rewrite app_length; simpl); lia).
+    destruct (Nat.eqb_spec (length a) (length (a ++ oi :: b'))) as [E|_].
+    { rewrite app_length in E. simpl in E. lia. }
+    assert (nth_error (a ++ oi :: b' ++ [z]) (length (a ++ oi :: b')) = Some z) as Hn.
+    { replace (a ++ oi :: b' ++ [z]) with ((a ++ oi :: b') ++ [z]) by (rewrite <- app_assoc; reflexivity).
+      rewrite nth_error_app2 by lia. rewrite Nat.sub_diag. reflexivity. }
+    rewrite Hn.
+    rewrite upd_app_mid.
+    replace (a ++ z :: b' ++ [z]) with ((a ++ z :: b') ++ [z]) by (rewrite <- app_assoc; reflexivity).
+    replace (length (a ++ oi :: b')) with (length (a ++ z :: b')) by (rewrite !app_length; reflexivity).
+    rewrite firstn_len_app. split; [|rewrite !app_length; reflexivity].
+    rewrite <- Permutation_middle. constructor.
+    apply Permutation_app_head. symmetry. apply Permutation_cons_append.
+Qed.
+
+(** ** Masks *)
+
+Lemma contains_spec : forall a b, mk_contains a b = true <-> (forall i, N.testbit b i = true -> N.testbit a i = true).
+Proof.
+  intros. unfold mk_contains. rewrite N.eqb_eq. split.
+  - intros H i Hb. rewrite <- H in Hb. rewrite N.land_spec in Hb. apply andb_true_iff in Hb. tauto.
+  - intros H. apply N.bits_inj. intro i. rewrite N.land_spec. destruct (N.testbit b i) eqn:E.
+    + rewrite (H i E). reflexivity.
+    + apply andb_false_r.
+Qed.
+
+Lemma nz_bit : forall b, b <> 0%N -> exists i, N.testbit b i = true.
+Proof. intros b H. exists (N.log2 b). apply N.bit_log2. exact H. Qed.
+
+Lemma any_spec : forall a b, mk_contains_any a b = true <-> (exists i, N.testbit a i = true /\ N.testbit b i = true).
+Proof.
+  intros. unfold mk_contains_any. rewrite negb_true_iff, N.eqb_neq. split.
+  - intros H. destruct (nz_bit _ H) as [i Hi]. exists i. rewrite N.land_spec in Hi. apply andb_true_iff in Hi. exact Hi.
+  - intros [i [Ha Hb]] H0. assert (N.testbit (N.land a b) i = true) as H by (rewrite N.land_spec, Ha, Hb; reflexivity).
+    rewrite H0, N.bits_0 in H. discriminate.
+Qed.
+
+Lemma set_nz : forall m c, mk_set m c <> 0%N.
+Proof.
+  intros m c H. unfold mk_set in H. pose proof (N.setbit_eq m (N.of_nat c)) as E. rewrite H, N.bits_0 in E. discriminate.
+Qed.
+
+Lemma contains_or_r : forall a b, mk_contains (mk_or a b) b = true.
+Proof. intros. apply contains_spec. intros i H. unfold mk_or. rewrite N.lor_spec, H. apply orb_true_r. Qed.
+
+Lemma contains_or_l : forall a b c, mk_contains a c = true -> mk_contains (mk_or a b) c = true.
+Proof. intros a b c H. rewrite contains_spec in *. intros i Hi. unfold mk_or. rewrite N.lor_spec, (H i Hi). reflexivity. Qed.
+
+Lemma contains_refl : forall a, mk_contains a a = true.
+Proof. intros. apply contains_spec. auto. Qed.
+
+Lemma contains_trans : forall a b c, mk_contains a b = true -> mk_contains b c = true -> mk_contains a c = true.
+Proof. intros a b c H1 H2. rewrite contains_spec in *. auto. Qed.
+
+(** The two facts behind every aggregate early-out. *)
+Lemma disjoint_not_contained : forall big m b, b <> 0%N -> mk_contains big b = true ->
+  mk_contains_any big m = false -> mk_contains m b = false.
+Proof.
+  intros big m b Hb Hbig Hany. destruct (mk_contains m b) eqn:E; [|reflexivity].
+  destruct (nz_bit _ Hb) as [i Hi]. rewrite contains_spec in *.
+  assert (mk_contains_any big m = true) as C by (apply any_spec; exists i; auto). congruence.
+Qed.
+
+Lemma covered_intersects : forall big old b, b <> 0%N -> mk_contains big b = true ->
+  mk_contains old big = true -> mk_contains_any old b = true.
+Proof.
+  intros big old b Hb Hbig Hold. destruct (nz_bit _ Hb) as [i Hi]. rewrite contains_spec in *.
+  apply any_spec. exists i. auto.
+Qed.
+
+(** ** The manager invariant *)
+
+Definition obj (s : W) (oi : nat) : option oobj := nth_error (w_obs s) oi.
+
+Definition Pm (o : oobj) : Prop :=
+  (o_haswith o = true -> o_with o <> 0%N) /\ (o_hascomps o = true -> o_comps o <> 0%N).
+
+Record MInv0 (s : W) : Prop := {
+  mi_lst : forall evt oi, In oi (olist s evt) ->
+           exists o, obj s oi = Some o /\ o_event o = evt /\ o_id o <> None /\ Pm o;
+  mi_nd : forall evt, NoDup (olist s evt);
+  mi_idl : forall oi o, obj s oi = Some o -> o_id o <> None -> In oi (olist s (o_event o));
+  mi_has : forall evt, g_has (get_agg s evt) = negb (is_nil (olist s evt));
+  mi_aggw : forall evt oi o, g_anynowith (get_agg s evt) = false -> In oi (olist s evt) -> obj s oi = Some o ->
+            o_haswith o = true /\ mk_contains (g_allwith (get_agg s evt)) (o_with o) = true;
+  mi_aggc : forall evt oi o, is_entity_event evt = false -> g_anynocomps (get_agg s evt) = false ->
+            In oi (olist s evt) -> obj s oi = Some o ->
+            o_hascomps o = true /\ mk_contains (g_allcomps (get_agg s evt)) (o_comps o) = true;
+  mi_keys : NoDup (map fst (w_olists s));
+  mi_max : forall evt, olist s evt <> [] -> evt <= w_omax s;
+  mi_rel : forall oi o, obj s oi = Some o -> is_relation_event (o_event o) = true ->
+           forall c, In c (o_for o) -> is_rel_comp s c = true
+}.
+
+Definition MInv (s : W) : Prop := MInv0 s /\ w_ototal s = lsum (w_olists s).
+
+Lemma olist_aget : forall s evt, olist s evt = aget evt (w_olists s).
+Proof. reflexivity. Qed.
+
+Lemma olist_aset : forall s s' evt l e, w_olists s' = aset evt l (w_olists s) ->
+  olist s' e = if Nat.eqb evt e then l else olist s e.
+Proof. intros. unfold olist. rewrite H, afind_aset. destruct (Nat.eqb evt e); reflexivity. Qed.
+
+Lemma get_agg_aset : forall s s' evt g e, w_oagg s' = aset evt g (w_oagg s) ->
+  get_agg s' e = if Nat.eqb evt e then g else get_agg s e.
+Proof. intros. unfold get_agg. rewrite H, afind_aset. destruct (Nat.eqb evt e); reflexivity. Qed.
+
+Definition mod_agg_st (evt : nat) (f : agg -> agg) (s : W) : W := s <| w_oagg ::= aset evt (f (get_agg s evt)) |>.
+
+Lemma mod_agg_eq : forall evt f s, mod_agg evt f s = Ok tt (mod_agg_st evt f s).
+Proof. reflexivity. Qed.
+
+Lemma get_agg_mod_st : forall evt f s e,
+  get_agg (mod_agg_st evt f s) e = if Nat.eqb evt e then f (get_agg s evt) else get_agg s e.
+Proof. intros. apply get_agg_aset. reflexivity. Qed.
+
+(** ** Frames and mask-building phases of [add_observer] *)
+
+Definition frame (s s' : W) : Prop :=
+  w_olists s' = w_olists s /\ w_oagg s' = w_oagg s /\ w_ototal s' = w_ototal s /\
+  w_omax s' = w_omax s /\ w_reg s' = w_reg s.
+
+Lemma frame_refl : forall s, frame s s.
+Proof. intros; repeat split. Qed.
+
+Lemma frame_trans : forall a b c, frame a b -> frame b c -> frame a c.
+Proof. unfold frame. intros a b c (A1&A2&A3&A4&A5) (B1&B2&B3&B4&B5). repeat split; congruence. Qed.
+
+Lemma frame_rel : forall s s' c, frame s s' -> is_rel_comp s' c = is_rel_comp s c.
+Proof. intros s s' c (_&_&_&_&H). unfold is_rel_comp. rewrite H. reflexivity. Qed.
+
+Definition static (o o' : oobj) : Prop := o_event o' = o_event o /\ o_for o' = o_for o /\ o_id o' = o_id o.
+
+Lemma static_trans : forall a b c, static a b -> static b c -> static a c.
+Proof. unfold static. intros a b c (A1&A2&A3) (B1&B2&B3). repeat split; congruence. Qed.
+
+Definition okf (f : oobj -> oobj) : Prop := forall o, static o (f o) /\ (Pm o -> Pm (f o)).
+
+Definition phase (oi : nat) (m : MW unit) (s : W) : Prop :=
+  forall o, obj s oi = Some o -> Pm o ->
+  exists s' o', m s = Ok tt s' /\ frame s s' /\
+    (forall j, obj s' j = if Nat.eqb j oi then Some o' else obj s j) /\ Pm o' /\ static o o'.
+
+Lemma obj_modO : forall s oi f j,
+  obj (s <| w_obs ::= updf oi f |>) j = if Nat.eqb j oi then option_map f (obj s j) else obj s j.
+Proof. intros. unfold obj. cbn. apply nth_error_updf. Qed.
+
+Lemma phase_modO : forall oi f s, okf f -> phase oi (modO oi f) s.
+Proof.
+  intros oi f s Hf o Ho HP. exists (s <| w_obs ::= updf oi f |>), (f o).
+  split; [reflexivity|]. split; [repeat split|]. split.
+  - intro j. rewrite obj_modO. destruct (Nat.eqb_spec j oi); [subst; rewrite Ho|]; reflexivity.
+  - destruct (Hf o). auto.
+Qed.
+
+Lemma phase_ret : forall oi s, phase oi (ret tt) s.
+Proof.
+  intros oi s o Ho HP. exists s, o. split; [reflexivity|]. split; [apply frame_refl|]. split.
+  - intro j. destruct (Nat.eqb_spec j oi); [subst; auto|reflexivity].
+  - split; [assumption|repeat split].
+Qed.
+
+Lemma phase_bind : forall oi m1 m2 s, phase oi m1 s -> (forall s', frame s s' -> phase oi m2 s') ->
+  phase oi (m1 ;;; m2) s.
+Proof.
+  intros oi m1 m2 s H1 H2 o Ho HP.
+  destruct (H1 o Ho HP) as (s1 & o1 & E1 & F1 & V1 & P1 & S1).
+  assert (obj s1 oi = Some o1) as Ho1 by (rewrite V1, Nat.eqb_refl; reflexivity).
+  destruct (H2 s1 F1 o1 Ho1 P1) as (s2 & o2 & E2 & F2 & V2 & P2 & S2).
+  exists s2, o2. split; [unfold bind; rewrite E1; exact E2|].
+  split; [eapply frame_trans; eauto|]. split.
+  - intro j. rewrite V2, V1. destruct (Nat.eqb j oi); reflexivity.
+  - split; [assumption|eapply static_trans; eauto].
+Qed.
+
+Lemma phase_ext : forall oi (m m' : MW unit) s, m s = m' s -> phase oi m' s -> phase oi m s.
+Proof. intros oi m m' s E H o Ho HP. rewrite E. apply H; assumption. Qed.
+
+Lemma phase_forM : forall oi (f : nat -> oobj -> oobj) l s, (forall c, okf (f c)) ->
+  phase oi (forM_ l (fun c => modO oi (f c))) s.
+Proof.
+  intros oi f l. induction l as [|c l IH]; intros s Hf; simpl.
+  - apply phase_ret.
+  - apply phase_bind; [apply phase_modO; auto|]. intros; apply IH; auto.
+Qed.
+
+Lemma phase_forM_guard : forall oi (f : nat -> oobj -> oobj) l s, (forall c, okf (f c)) ->
+  (forall c, In c l -> is_rel_comp s c = true) ->
+  phase oi (forM_ l (fun c => s0 <- get ;; guard (is_rel_comp s0 c) ENotRelation ;;; modO oi (f c))) s.
+Proof.
+  intros oi f l. induction l as [|c l IH]; intros s Hf Hr; simpl.
+  - apply phase_ret.
+  - apply phase_bind.
+    + apply phase_ext with (m' := modO oi (f c)); [|apply phase_modO; auto].
+      unfold bind at 1, get at 1. rewrite (Hr c) by (left; reflexivity). reflexivity.
+    + intros s' F. apply IH; auto. intros c' Hc'. rewrite (frame_rel _ _ _ F). apply Hr. right; assumption.
+Qed.
+
+Lemma okf_comps : forall c, okf (fun o => o <| o_comps ::= fun m => mk_set m c |> <| o_hascomps := true |>).
+Proof. intros c o. split; [repeat split|]. intros [Hw Hc]. split; cbn; [exact Hw|]. intros _. apply set_nz. Qed.
+
+Lemma okf_with : forall c, okf (fun o => o <| o_with ::= fun m => mk_set m c |> <| o_haswith := true |>).
+Proof. intros c o. split; [repeat split|]. intros [Hw Hc]. split; cbn; [|exact Hc]. intros _. apply set_nz. Qed.
+
+Lemma okf_without : forall c, okf (fun o => o <| o_without ::= fun m => mk_set m c |> <| o_haswithout := true |>).
+Proof. intros c o. split; [repeat split|]. intros [Hw Hc]. split; cbn; assumption. Qed.
+
+Lemma okf_excl : forall b, okf (fun o => o <| o_without := mk_not b (o_with o) |> <| o_haswithout := true |>).
+Proof. intros c o. split; [repeat split|]. intros [Hw Hc]. split; cbn; assumption. Qed.
+
+(** ** [add_observer] *)
+
+Definition Gadd (o' : oobj) (g : agg) : agg :=
+  let g1 := g <| g_has := true |> in
+  let g2 := if o_haswith o' then g1 <| g_allwith ::= fun m => mk_or m (o_with o') |>
+            else g1 <| g_anynowith := true |> in
+  if is_entity_event (o_event o') then g2
+  else if o_hascomps o' then g2 <| g_allcomps ::= fun m => mk_or m (o_comps o') |>
+       else g2 <| g_anynocomps := true |>.
+
+Lemma add_tail : forall s oi o, exists s',
+  (modify (fun s => s <| w_olists ::= aset (o_event o) (olist s (o_event o) ++ [oi]) |>
+                         <| w_omax ::= fun m => Nat.max m (o_event o) |>
+                         <| w_ototal ::= S |>) ;;;
+      mod_agg (o_event o) (fun g => g <| g_has := true |>) ;;;
+      (if o_haswith o then mod_agg (o_event o) (fun g => g <| g_allwith ::= fun m => mk_or m (o_with o) |>)
+       else mod_agg (o_event o) (fun g => g <| g_anynowith := true |>)) ;;;
+      if is_entity_event (o_event o) then ret tt
+      else if o_hascomps o then mod_agg (o_event o) (fun g => g <| g_allcomps ::= fun m => mk_or m (o_comps o) |>)
+      else mod_agg (o_event o) (fun g => g <| g_anynocomps := true |>)) s = Ok tt s' /\
+  w_obs s' = w_obs s /\
+  w_olists s' = aset (o_event o) (olist s (o_event o) ++ [oi]) (w_olists s) /\
+  (forall e, get_agg s' e = if Nat.eqb (o_event o) e then Gadd o (get_agg s (o_event o)) else get_agg s e) /\
+  w_ototal s' = S (w_ototal s) /\ w_omax s' = Nat.max (w_omax s) (o_event o) /\ w_reg s' = w_reg s.
+Proof.
+  intros. unfold bind, modify. unfold Gadd.
+  destruct (o_haswith o), (is_entity_event (o_event o)); [| |  |];
+    try destruct (o_hascomps o); rewrite ?mod_agg_eq; unfold ret;
+    (eexists; split; [reflexivity|]; repeat split;
+     intro e; rewrite ?get_agg_mod_st, ?Nat.eqb_refl; destruct (Nat.eqb (o_event o) e); reflexivity).
+Qed.
+
+Lemma add_spec : forall s oi, MInv0 s ->
+  (exists e, add_observer oi s = Err e s) \/
+  (exists o o' s', add_observer oi s = Ok tt s' /\ obj s oi = Some o /\ o_id o = None /\
+     o_event o' = o_event o /\ o_for o' = o_for o /\ o_id o' <> None /\ Pm o' /\
+     (forall j, obj s' j = if Nat.eqb j oi then Some o' else obj s j) /\
+     w_olists s' = aset (o_event o) (olist s (o_event o) ++ [oi]) (w_olists s) /\
+     (forall e, get_agg s' e = if Nat.eqb (o_event o) e then Gadd o' (get_agg s (o_event o)) else get_agg s e) /\
+     w_ototal s' = S (w_ototal s) /\ w_omax s' = Nat.max (w_omax s) (o_event o) /\ w_reg s' = w_reg s).
+Proof.
+  intros s oi HI. remember (add_observer oi s) as r eqn:Er. symmetry in Er. unfold add_observer in Er.
+  unfold bind at 1, getO at 1, bind at 1, get at 1 in Er. cbv beta iota in Er. fold (obj s oi) in Er.
+  destruct (obj s oi) as [o|] eqn:Eo; cbn [of_opt ret fail] in Er; [|left; eexists; symmetry; exact Er].
+  unfold bind at 1 in Er. destruct (o_id o) eqn:Eid; cbn [guard ret fail] in Er; [left; eexists; symmetry; exact Er|].
+  unfold bind at 1, get at 1 in Er. cbv beta iota in Er.
+  destruct (ipool_get None (w_opool s)) as [[id p']|]; [|left; eexists; symmetry; exact Er].
+  right.
+  unfold bind at 1, put at 1 in Er. cbv beta iota in Er. unfold bind at 1, modO at 1, modify at 1 in Er. cbv beta iota in Er.
+  match type of Er with context [bind _ _ ?st] => set (s1 := st) in Er end.
+  set (o1 := o <| o_id := Some id |> <| o_hascomps := false |> <| o_haswith := false |> <| o_haswithout := false |>).
+  assert (frame s s1) as F1 by (repeat split).
+  assert (forall j, obj s1 j = if Nat.eqb j oi then Some o1 else obj s j) as V1.
+  { intro j. unfold s1. rewrite obj_modO. change (obj (s <| w_opool := p' |>) j) with (obj s j).
+    destruct (Nat.eqb_spec j oi); [subst; rewrite Eo|]; reflexivity. }
+  assert (Pm o1) as P1 by (split; cbn; discriminate).
+  assert (obj s1 oi = Some o1) as Ho1 by (rewrite V1, Nat.eqb_refl; reflexivity).
+  (* phase 1: For *)
+  match type of Er with context [bind ?m _ s1] => assert (phase oi m s1) as Ph1 end.
+  { destruct (is_relation_event (o_event o)) eqn:Erel.
+    - apply phase_forM_guard; [apply okf_comps|]. intros c Hc. rewrite (frame_rel _ _ c F1).
+      eapply mi_rel; eauto.
+    - destruct (is_entity_event (o_event o)); apply phase_forM; [apply okf_with|apply okf_comps]. }
+  destruct (Ph1 o1 Ho1 P1) as (s2 & o2 & E2 & F2 & V2 & P2 & S2).
+  unfold bind at 1 in Er. rewrite E2 in Er. clear E2 Ph1.
+  assert (obj s2 oi = Some o2) as Ho2 by (rewrite V2, Nat.eqb_refl; reflexivity).
+  (* phase 2: With *)
+  match type of Er with context [bind ?m _ s2] => assert (phase oi m s2) as Ph2 by (apply phase_forM; apply okf_with) end.
+  destruct (Ph2 o2 Ho2 P2) as (s3 & o3 & E3 & F3 & V3 & P3 & S3).
+  unfold bind at 1 in Er. rewrite E3 in Er. clear E3 Ph2.
+  assert (obj s3 oi = Some o3) as Ho3 by (rewrite V3, Nat.eqb_refl; reflexivity).
+  unfold bind at 1, get at 1 in Er. cbv beta iota in Er.
+  (* phase 3: Without / Exclusive *)
+  match type of Er with context [bind ?m _ s3] => assert (phase oi m s3) as Ph3 end.
+  { destruct (o_excl o); [apply phase_modO; apply okf_excl|apply phase_forM; apply okf_without]. }
+  destruct (Ph3 o3 Ho3 P3) as (s4 & o4 & E4 & F4 & V4 & P4 & S4).
+  unfold bind at 1 in Er. rewrite E4 in Er. clear E4 Ph3.
+  assert (obj s4 oi = Some o4) as Ho4 by (rewrite V4, Nat.eqb_refl; reflexivity).
+  unfold bind at 1, getO at 1, bind at 1, get at 1 in Er. cbv beta iota in Er. fold (obj s4 oi) in Er. rewrite Ho4 in Er. cbn [of_opt ret] in Er.
+  destruct (add_tail s4 oi o4) as (s5 & E5 & T1 & T2 & T3 & T4 & T5 & T6).
+  rewrite E5 in Er. subst r.
+  assert (static o1 o4) as S14 by (exact (static_trans _ _ _ (static_trans _ _ _ S2 S3) S4)).
+  destruct S14 as (Sa & Sb & Sc).
+  assert (frame s s4) as F14 by (exact (frame_trans _ _ _ (frame_trans _ _ _ (frame_trans _ _ _ F1 F2) F3) F4)).
+  destruct F14 as (Fa & Fb & Fc & Fd & Fe).
+  assert (o_event o4 = o_event o) as Eev by (rewrite Sa; reflexivity).
+  exists o, o4, s5. split; [reflexivity|]. split; [reflexivity|]. split; [assumption|].
+  split; [assumption|]. split; [rewrite Sb; reflexivity|]. split; [rewrite Sc; cbn; discriminate|].
+  split; [assumption|]. split.
+  { intro j. unfold obj at 1. rewrite T1. fold (obj s4 j). rewrite V4, V3, V2, V1.
+    destruct (Nat.eqb j oi); reflexivity. }
+  rewrite Eev in *. unfold olist, get_agg in *. rewrite Fa, Fb, Fc, Fd, Fe in *.
+  repeat split; assumption.
+Qed.
+
+Lemma Gadd_has : forall o g, g_has (Gadd o g) = true.
+Proof. intros. unfold Gadd. destruct (o_haswith o), (is_entity_event (o_event o)), (o_hascomps o); reflexivity. Qed.
+
+Lemma Gadd_w : forall o g, g_anynowith (Gadd o g) = false ->
+  o_haswith o = true /\ g_anynowith g = false /\ g_allwith (Gadd o g) = mk_or (g_allwith g) (o_with o).
+Proof.
+  intros o g. unfold Gadd.
+  destruct (o_haswith o), (is_entity_event (o_event o)), (o_hascomps o); cbn; intro H; try discriminate; auto.
+Qed.
+
+Lemma Gadd_c : forall o g, is_entity_event (o_event o) = false -> g_anynocomps (Gadd o g) = false ->
+  o_hascomps o = true /\ g_anynocomps g = false /\ g_allcomps (Gadd o g) = mk_or (g_allcomps g) (o_comps o).
+Proof.
+  intros o g He. unfold Gadd. rewrite He.
+  destruct (o_haswith o), (o_hascomps o); cbn; intro H; try discriminate; auto.
+Qed.
+
+Lemma add_inv : forall s oi, MInv s -> MInv (state_of (add_observer oi s)).
+Proof.
+  intros s oi [HI HT].
+  destruct (add_spec s oi HI) as [[e E] | (o & o' & s' & E & Ho & Hid & Hev & Hfor & Hid' & HP & V & L & G & T & Mx & R)];
+    rewrite E; simpl; [split; assumption|].
+  set (evt := o_event o) in *.
+  assert (forall e, ~ In oi (olist s e)) as Hnotin.
+  { intros e Hin. destruct (mi_lst _ HI _ _ Hin) as (o0 & Ho0 & _ & Hid0 & _). congruence. }
+  pose proof (fun e => olist_aset s s' evt _ e L) as OL. simpl in OL.
+  split; [constructor|].
+  - (* lst *)
+    intros e j Hin. rewrite OL in Hin. rewrite V. destruct (Nat.eqb_spec evt e).
+    + subst e. apply in_app_or in Hin. destruct Hin as [Hin | [<- | []]].
+      * destruct (Nat.eqb_spec j oi); [subst; exfalso; eapply Hnotin; eauto|]. eapply mi_lst; eauto.
+      * rewrite Nat.eqb_refl. exists o'. auto.
+    + destruct (Nat.eqb_spec j oi); [subst; exfalso; eapply Hnotin; eauto|]. eapply mi_lst; eauto.
+  - (* nd *)
+    intro e. rewrite OL. destruct (Nat.eqb evt e); [|apply mi_nd; assumption].
+    eapply Permutation_NoDup; [apply Permutation_cons_append|]. constructor; [apply Hnotin|apply mi_nd; assumption].
+  - (* idl *)
+    intros j oj Hj Hidj. rewrite V in Hj. rewrite OL. destruct (Nat.eqb_spec j oi).
+    + inversion Hj; subst oj. rewrite Hev. rewrite Nat.eqb_refl. apply in_or_app. right. left. auto.
+    + pose proof (mi_idl _ HI _ _ Hj Hidj) as Hin. destruct (Nat.eqb_spec evt (o_event oj)) as [Ee|]; [|assumption].
+      apply in_or_app. left. rewrite Ee. assumption.
+  - (* has *)
+    intro e. rewrite G, OL. destruct (Nat.eqb evt e); [|apply mi_has; assumption].
+    rewrite Gadd_has. destruct (olist s evt); reflexivity.
+  - (* aggw *)
+    intros e j oj Hany Hin Hj. rewrite G in *. rewrite OL in Hin. rewrite V in Hj. destruct (Nat.eqb_spec evt e).
+    + subst e. destruct (Gadd_w _ _ Hany) as (Hw & Hg & ->).
+      destruct (Nat.eqb_spec j oi).
+      * inversion Hj; subst oj. split; [assumption|apply contains_or_r].
+      * apply in_app_or in Hin. destruct Hin as [Hin | [<- | []]]; [|congruence].
+        destruct (mi_aggw _ HI _ _ _ Hg Hin Hj). split; [assumption|]. apply contains_or_l. assumption.
+    + destruct (Nat.eqb_spec j oi); [subst; exfalso; eapply Hnotin; eauto|]. eapply mi_aggw; eauto.
+  - (* aggc *)
+    intros e j oj Hent Hany Hin Hj. rewrite G in *. rewrite OL in Hin. rewrite V in Hj. destruct (Nat.eqb_spec evt e).
+    + subst e. assert (is_entity_event (o_event o') = false) as Hent' by (rewrite Hev; exact Hent).
+      destruct (Gadd_c _ _ Hent' Hany) as (Hw & Hg & ->).
+      destruct (Nat.eqb_spec j oi).
+      * inversion Hj; subst oj. split; [assumption|apply contains_or_r].
+      * apply in_app_or in Hin. destruct Hin as [Hin | [<- | []]]; [|congruence].
+        destruct (mi_aggc _ HI _ _ _ Hent Hg Hin Hj). split; [assumption|]. apply contains_or_l. assumption.
+    + destruct (Nat.eqb_spec j oi); [subst; exfalso; eapply Hnotin; eauto|]. eapply mi_aggc; eauto.
+  - (* keys *)
+    rewrite L. apply keys_aset_nodup. apply mi_keys; assumption.
+  - (* max *)
+    intros e Hne. rewrite OL in Hne. rewrite Mx. destruct (Nat.eqb_spec evt e); [subst; lia|].
+    pose proof (mi_max _ HI _ Hne). lia.
+  - (* rel *)
+    intros j oj Hj Hr c Hc. assert (is_rel_comp s' c = is_rel_comp s c) as -> by (unfold is_rel_comp; rewrite R; reflexivity).
+    rewrite V in Hj. destruct (Nat.eqb_spec j oi).
+    + inversion Hj; subst oj. rewrite Hev in Hr. rewrite Hfor in Hc. eapply mi_rel; eauto.
+    + eapply mi_rel; eauto.
+  - (* total *)
+    rewrite T, L, HT. pose proof (lsum_aset evt (olist s evt ++ [oi]) (w_olists s)) as H.
+    rewrite app_length in H. simpl in H. unfold olist in *. unfold aget in H. lia.
+Qed.
+
+(** ** [remove_observer] *)
+
+Lemma recompute_with_spec : forall objs acc aw, recompute_with objs acc = (aw, false) ->
+  mk_contains aw acc = true /\ forall o, In o objs -> o_haswith o = true /\ mk_contains aw (o_with o) = true.
+Proof.
+  induction objs as [|o t IH]; simpl; intros acc aw H.
+  - inversion H; subst. split; [apply contains_refl|intros ? []].
+  - destruct (o_haswith o) eqn:E; simpl in H; [|discriminate].
+    destruct (IH _ _ H) as [Hc Ht]. split.
+    + eapply contains_trans; [exact Hc|]. apply contains_or_l, contains_refl.
+    + intros o' [<-|Hin]; [|auto]. split; [assumption|]. eapply contains_trans; [exact Hc|]. apply contains_or_r.
+Qed.
+
+Lemma recompute_comps_spec : forall objs acc aw, recompute_comps objs acc = (aw, false) ->
+  mk_contains aw acc = true /\ forall o, In o objs -> o_hascomps o = true /\ mk_contains aw (o_comps o) = true.
+Proof.
+  induction objs as [|o t IH]; simpl; intros acc aw H.
+  - inversion H; subst. split; [apply contains_refl|intros ? []].
+  - destruct (o_hascomps o) eqn:E; simpl in H; [|discriminate].
+    destruct (IH _ _ H) as [Hc Ht]. split.
+    + eapply contains_trans; [exact Hc|]. apply contains_or_l, contains_refl.
+    + intros o' [<-|Hin]; [|auto]. split; [assumption|]. eapply contains_trans; [exact Hc|]. apply contains_or_r.
+Qed.
+
+Lemma objs_of_in : forall s l j oj, In j l -> obj s j = Some oj -> In oj (objs_of s l).
+Proof.
+  intros s l j oj Hin Hj. unfold objs_of. apply in_flat_map. exists j. split; [assumption|].
+  unfold obj in Hj. rewrite Hj. left. reflexivity.
+Qed.
+
+Lemma rem_spec : forall s oi,
+  (exists e, remove_observer oi s = Err e s) \/
+  (exists o s' l' g', remove_observer oi s = Ok tt s' /\ obj s oi = Some o /\ o_id o <> None /\
+     Permutation (olist s (o_event o)) (oi :: l') /\
+     (forall j, obj s' j = if Nat.eqb j oi then Some (o <| o_id := None |>) else obj s j) /\
+     w_olists s' = aset (o_event o) l' (w_olists s) /\
+     (forall e, get_agg s' e = if Nat.eqb (o_event o) e then g' else get_agg s e) /\
+     g_has g' = negb (is_nil l') /\
+     (g_anynowith g' = false -> forall j oj, In j l' -> obj s' j = Some oj ->
+        o_haswith oj = true /\ mk_contains (g_allwith g') (o_with oj) = true) /\
+     (is_entity_event (o_event o) = false -> g_anynocomps g' = false -> forall j oj, In j l' -> obj s' j = Some oj ->
+        o_hascomps oj = true /\ mk_contains (g_allcomps g') (o_comps oj) = true) /\
+     w_ototal s' = w_ototal s - 1 /\ w_omax s' = w_omax s /\ w_reg s' = w_reg s).
+Proof.
+  intros s oi. remember (remove_observer oi s) as r eqn:Er. symmetry in Er. unfold remove_observer in Er.
+  unfold bind at 1, getO at 1, bind at 1, get at 1 in Er. cbv beta iota in Er. fold (obj s oi) in Er.
+  destruct (obj s oi) as [o|] eqn:Eo; cbn [of_opt ret fail] in Er; [|left; eexists; symmetry; exact Er].
+  unfold bind at 1 in Er. destruct (o_id o) eqn:Eid; cbn [guard ret fail] in Er; [|left; eexists; symmetry; exact Er].
+  unfold bind at 1, get at 1 in Er. cbv beta iota zeta in Er.
+  unfold bind at 1 in Er.
+  destruct (index_of oi (olist s (o_event o))) as [idx|] eqn:Eidx; cbn [of_opt ret fail] in Er; [|left; eexists; symmetry; exact Er].
+  right.
+  destruct (swap_remove_perm _ _ _ Eidx) as [Hperm Hlen].
+  set (evt := o_event o) in *. set (l' := swap_remove idx (olist s evt)) in *.
+  match type of Er with context [aset _ ?x] => change x with l' in Er end.
+  unfold bind at 1, modO at 1, modify at 1 in Er. cbv beta iota in Er.
+  unfold bind at 1, modify at 1 in Er. cbv beta iota in Er.
+  unfold bind at 1 in Er. rewrite mod_agg_eq in Er. cbv beta iota in Er.
+  unfold bind at 1, get at 1 in Er. cbv beta iota in Er.
+  set (s1 := s <| w_obs ::= updf oi (fun o => o <| o_id := None |>) |>) in *.
+  assert (forall j, obj s1 j = if Nat.eqb j oi then Some (o <| o_id := None |>) else obj s j) as V1.
+  { intro j. unfold s1. rewrite obj_modO. destruct (Nat.eqb_spec j oi); [subst; rewrite Eo|]; reflexivity. }
+  match type of Er with context [objs_of ?st _] => set (sA := st) in * end.
+  set (gA := get_agg s evt <| g_has := Nat.ltb 0 (length (olist s evt) - 1) |>).
+  assert (forall e, get_agg sA e = if Nat.eqb evt e then gA else get_agg s e) as GA.
+  { intro e. unfold sA. rewrite get_agg_mod_st. reflexivity. }
+  assert (g_has gA = negb (is_nil l')) as Hhas.
+  { unfold gA. cbn. rewrite <- Hlen. destruct l'; reflexivity. }
+  destruct (recompute_with (objs_of sA l') 0%N) as [aw nw] eqn:Ew.
+  unfold bind at 1 in Er. rewrite mod_agg_eq in Er. cbv beta iota in Er.
+  assert (nw = false -> forall j oj, In j l' -> obj sA j = Some oj ->
+          o_haswith oj = true /\ mk_contains aw (o_with oj) = true) as HW.
+  { intros Hnw j oj Hin Hj. subst nw. destruct (recompute_with_spec _ _ _ Ew) as [_ H]. apply H.
+    eapply objs_of_in; eauto. }
+  destruct (is_entity_event evt) eqn:Eent.
+  - cbn [ret] in Er. subst r.
+    exists o. eexists. exists l', (gA <| g_allwith := aw |> <| g_anynowith := nw |>). change (o_event o) with evt. split; [reflexivity|]. split; [reflexivity|]. split; [congruence|].
+    split; [exact Hperm|]. split; [exact V1|]. split; [reflexivity|].
+    split. { intro e. rewrite get_agg_mod_st, !GA, ?Nat.eqb_refl. destruct (Nat.eqb evt e); reflexivity. }
+    split; [exact Hhas|]. split; [cbn; intros Hnw; apply (HW Hnw)|].
+    split; [intro; congruence|]. repeat split.
+  - destruct (recompute_comps (objs_of sA l') 0%N) as [ac nc] eqn:Ec.
+    rewrite mod_agg_eq in Er. subst r.
+    exists o. eexists. exists l', (gA <| g_allwith := aw |> <| g_anynowith := nw |> <| g_allcomps := ac |> <| g_anynocomps := nc |>). change (o_event o) with evt. split; [reflexivity|]. split; [reflexivity|]. split; [congruence|].
+    split; [exact Hperm|]. split; [exact V1|]. split; [reflexivity|].
+    split. { intro e. rewrite !get_agg_mod_st, !GA, ?Nat.eqb_refl. destruct (Nat.eqb evt e); reflexivity. }
+    split; [exact Hhas|]. split; [cbn; intros Hnw; apply (HW Hnw)|].
+    split; [|repeat split].
+    cbn. intros _ Hnc j oj Hin Hj. subst nc. destruct (recompute_comps_spec _ _ _ Ec) as [_ H]. apply H.
+    eapply objs_of_in; eauto.
+Qed.
+
+Lemma rem_inv : forall s oi, MInv s -> MInv (state_of (remove_observer oi s)).
+Proof.
+  intros s oi [HI HT].
+  destruct (rem_spec s oi) as [[e E] | (o & s' & l' & g' & E & Ho & Hid & Hperm & V & L & G & Hhas & HW & HC & T & Mx & R)];
+    rewrite E; simpl; [split; assumption|].
+  set (evt := o_event o) in *.
+  assert (NoDup (oi :: l')) as Hnd by (eapply Permutation_NoDup; [exact Hperm|apply mi_nd; assumption]).
+  inversion Hnd as [|? ? Hnotin Hnd']; subst.
+  assert (forall j, In j l' -> In j (olist s evt)) as Hsub.
+  { intros j Hj. eapply Permutation_in; [symmetry; exact Hperm|]. right; assumption. }
+  assert (forall j, In j (olist s evt) -> j = oi \/ In j l') as Hsup.
+  { intros j Hj. apply (Permutation_in _ Hperm) in Hj. destruct Hj; auto. }
+  assert (forall e, e <> evt -> ~ In oi (olist s e)) as Hother.
+  { intros e Hne Hin. destruct (mi_lst _ HI _ _ Hin) as (o0 & Ho0 & Hev0 & _). unfold evt in Hne. congruence. }
+  pose proof (fun e => olist_aset s s' evt _ e L) as OL. simpl in OL.
+  assert (forall e j, In j (olist s' e) -> j <> oi /\ In j (olist s e)) as Hin'.
+  { intros e j Hin. rewrite OL in Hin. destruct (Nat.eqb_spec evt e).
+    - subst e. split; [intro; subst; auto|auto].
+    - split; [|assumption]. intro; subst. eapply Hother; eauto. }
+  assert (forall j, j <> oi -> obj s' j = obj s j) as V'.
+  { intros j Hne. rewrite V. destruct (Nat.eqb_spec j oi); [contradiction|reflexivity]. }
+  split; [constructor|].
+  - (* lst *)
+    intros e j Hin. destruct (Hin' _ _ Hin) as [Hne Hin0]. rewrite (V' _ Hne). eapply mi_lst; eauto.
+  - (* nd *)
+    intro e. rewrite OL. destruct (Nat.eqb evt e); [assumption|apply mi_nd; assumption].
+  - (* idl *)
+    intros j oj Hj Hidj. rewrite V in Hj. rewrite OL. destruct (Nat.eqb_spec j oi).
+    + inversion Hj; subst oj. cbn in Hidj. congruence.
+    + pose proof (mi_idl _ HI _ _ Hj Hidj) as Hin. destruct (Nat.eqb_spec evt (o_event oj)) as [Ee|]; [|assumption].
+      rewrite <- Ee in Hin. destruct (Hsup _ Hin); [contradiction|assumption].
+  - (* has *)
+    intro e. rewrite G, OL. destruct (Nat.eqb evt e); [assumption|apply mi_has; assumption].
+  - (* aggw *)
+    intros e j oj Hany Hin Hj. destruct (Hin' _ _ Hin) as [Hne Hin0].
+    rewrite G in *. rewrite OL in Hin. destruct (Nat.eqb_spec evt e).
+    + eapply HW; eauto.
+    + rewrite (V' _ Hne) in Hj. eapply mi_aggw; eauto.
+  - (* aggc *)
+    intros e j oj Hent Hany Hin Hj. destruct (Hin' _ _ Hin) as [Hne Hin0].
+    rewrite G in *. rewrite OL in Hin. destruct (Nat.eqb_spec evt e).
+    + subst e. eapply HC; eauto.
+    + rewrite (V' _ Hne) in Hj. eapply mi_aggc; eauto.
+  - (* keys *)
+    rewrite L. apply keys_aset_nodup. apply mi_keys; assumption.
+  - (* max *)
+    intros e Hne. rewrite OL in Hne. rewrite Mx. destruct (Nat.eqb_spec evt e); [subst e|apply mi_max; assumption].
+    apply mi_max; [assumption|]. intro H0. rewrite H0 in Hperm. apply Permutation_nil in Hperm. discriminate.
+  - (* rel *)
+    intros j oj Hj Hr c Hc. assert (is_rel_comp s' c = is_rel_comp s c) as -> by (unfold is_rel_comp; rewrite R; reflexivity).
+    rewrite V in Hj. destruct (Nat.eqb_spec j oi).
+    + inversion Hj; subst oj. cbn in Hr, Hc. eapply mi_rel; eauto.
+    + eapply mi_rel; eauto.
+  - (* total *)
+    rewrite T, L, HT. pose proof (lsum_aset evt l' (w_olists s)) as H.
+    pose proof (Permutation_length Hperm) as Hl. simpl in Hl. unfold olist in Hl. unfold aget in H. lia.
+Qed.
+
+(** ** [reset_observers] *)
+
+Lemma MInv0_ext : forall s s', w_obs s' = w_obs s -> w_olists s' = w_olists s -> w_oagg s' = w_oagg s ->
+  w_reg s' = w_reg s -> (forall e, olist s' e <> [] -> e <= w_omax s') -> MInv0 s -> MInv0 s'.
+Proof.
+  intros s s' H1 H2 H3 H4 H5 HI. destruct HI.
+  constructor; try exact H5; unfold obj, olist, get_agg, is_rel_comp in *; rewrite ?H1, ?H2, ?H3, ?H4; auto.
+Qed.
+
+Lemma forM_modO_many : forall f l s, NoDup l ->
+  exists s', forM_ l (fun oi => modO oi f) s = Ok tt s' /\ frame s s' /\
+    (forall j, In j l -> obj s' j = option_map f (obj s j)) /\ (forall j, ~ In j l -> obj s' j = obj s j).
+Proof.
+  intros f l. induction l as [|a t IH]; intros s Hnd; simpl.
+  - exists s. split; [reflexivity|]. split; [apply frame_refl|]. split; [intros ? []|reflexivity].
+  - inversion Hnd as [|? ? Ha Hnd']; subst.
+    destruct (IH (s <| w_obs ::= updf a f |>) Hnd') as (s' & E & F & V1 & V2).
+    exists s'. split; [exact E|]. split; [exact F|]. split.
+    + intros j [<-|Hj].
+      * rewrite (V2 _ Ha), obj_modO, Nat.eqb_refl. reflexivity.
+      * rewrite (V1 _ Hj), obj_modO. destruct (Nat.eqb_spec j a); [subst; contradiction|reflexivity].
+    + intros j Hj. rewrite V2 by (intro; apply Hj; right; assumption). rewrite obj_modO.
+      destruct (Nat.eqb_spec j a); [subst; exfalso; apply Hj; left; reflexivity|reflexivity].
+Qed.
+
+Definition clear_evt (evt : nat) : MW unit :=
+  s <- get ;;
+  if negb (has_obs s evt) then ret tt
+  else
+    forM_ (olist s evt) (fun oi => modO oi (fun o => o <| o_id := None |>)) ;;;
+    modify (fun s => s <| w_olists ::= aset evt [] |>) ;;;
+    mod_agg evt (fun _ => agg0).
+
+Lemma clear_step : forall evt s, MInv0 s ->
+  exists s', clear_evt evt s = Ok tt s' /\ MInv0 s' /\
+    (forall e, olist s' e = if Nat.eqb evt e then [] else olist s e) /\ w_omax s' = w_omax s.
+Proof.
+  intros evt s HI. unfold clear_evt. unfold bind at 1, get at 1. cbv beta iota.
+  destruct (has_obs s evt) eqn:Eh; cbn [negb].
+  - (* clear the event *)
+    destruct (forM_modO_many (fun o => o <| o_id := None |>) (olist s evt) s (mi_nd _ HI evt))
+      as (s1 & E1 & (Fa & Fb & Fc & Fd & Fe) & V1 & V2).
+    unfold bind at 1. rewrite E1. unfold bind at 1, modify at 1. cbv beta iota. rewrite mod_agg_eq.
+    match goal with |- context [Ok tt ?st] => set (s' := st) end.
+    exists s'. split; [reflexivity|].
+    assert (forall j, obj s' j = obj s1 j) as V0 by reflexivity.
+    assert (forall e, olist s' e = if Nat.eqb evt e then [] else olist s e) as OL.
+    { intro e. rewrite (olist_aset s1 s' evt [] e) by reflexivity. unfold olist. rewrite Fa. reflexivity. }
+    assert (forall e, get_agg s' e = if Nat.eqb evt e then agg0 else get_agg s e) as G.
+    { intro e. unfold s'. rewrite get_agg_mod_st. unfold get_agg. cbn [w_oagg]. 
+      change (w_oagg (s1 <| w_olists ::= aset evt [] |>)) with (w_oagg s1). rewrite Fb. reflexivity. }
+    assert (forall e j, In j (olist s' e) -> e <> evt /\ In j (olist s e) /\ obj s' j = obj s j) as Hin'.
+    { intros e j Hin. rewrite OL in Hin. destruct (Nat.eqb_spec evt e); [destruct Hin|].
+      split; [congruence|]. split; [assumption|]. rewrite V0. apply V2. intro Hin2.
+      destruct (mi_lst _ HI _ _ Hin) as (o1 & Ho1 & Hev1 & _). destruct (mi_lst _ HI _ _ Hin2) as (o2 & Ho2 & Hev2 & _).
+      congruence. }
+    split; [|split; [exact OL|exact Fd]].
+    constructor.
+    + intros e j Hin. destruct (Hin' _ _ Hin) as (Hne & Hin0 & ->). eapply mi_lst; eauto.
+    + intro e. rewrite OL. destruct (Nat.eqb evt e); [constructor|apply mi_nd; assumption].
+    + intros j oj Hj Hidj. rewrite V0 in Hj. destruct (in_dec Nat.eq_dec j (olist s evt)) as [Hin|Hnin].
+      * rewrite (V1 _ Hin) in Hj. destruct (obj s j); simpl in Hj; [|discriminate]. inversion Hj; subst oj. cbn in Hidj. congruence.
+      * rewrite (V2 _ Hnin) in Hj. pose proof (mi_idl _ HI _ _ Hj Hidj) as Hin. rewrite OL.
+        destruct (Nat.eqb_spec evt (o_event oj)) as [Ee|]; [|assumption]. rewrite <- Ee in Hin. contradiction.
+    + intro e. rewrite G, OL. destruct (Nat.eqb evt e); [reflexivity|apply mi_has; assumption].
+    + intros e j oj Hany Hin Hj. destruct (Hin' _ _ Hin) as (Hne & Hin0 & Hv). rewrite Hv in Hj. rewrite G in *.
+      destruct (Nat.eqb_spec evt e); [congruence|]. eapply mi_aggw; eauto.
+    + intros e j oj Hent Hany Hin Hj. destruct (Hin' _ _ Hin) as (Hne & Hin0 & Hv). rewrite Hv in Hj. rewrite G in *.
+      destruct (Nat.eqb_spec evt e); [congruence|]. eapply mi_aggc; eauto.
+    + change (w_olists s') with (aset evt [] (w_olists s1)). rewrite Fa. apply keys_aset_nodup. apply mi_keys; assumption.
+    + intros e Hne. rewrite OL in Hne. change (w_omax s') with (w_omax s1). rewrite Fd.
+      destruct (Nat.eqb evt e); [congruence|apply mi_max; assumption].
+    + intros j oj Hj Hr c Hc.
+      assert (is_rel_comp s' c = is_rel_comp s c) as -> by (unfold is_rel_comp; change (w_reg s') with (w_reg s1); rewrite Fe; reflexivity).
+      rewrite V0 in Hj. destruct (in_dec Nat.eq_dec j (olist s evt)) as [Hin|Hnin].
+      * rewrite (V1 _ Hin) in Hj. destruct (obj s j) as [o0|] eqn:Ho0; simpl in Hj; [|discriminate]. inversion Hj; subst oj.
+        cbn in Hr, Hc. eapply mi_rel; eauto.
+      * rewrite (V2 _ Hnin) in Hj. eapply mi_rel; eauto.
+  - (* nothing registered for this event *)
+    exists s. split; [reflexivity|]. split; [assumption|]. split; [|reflexivity].
+    intro e. destruct (Nat.eqb_spec evt e); [subst e|reflexivity].
+    unfold has_obs in Eh. rewrite (mi_has _ HI) in Eh. destruct (olist s evt); [reflexivity|discriminate].
+Qed.
+
+Lemma clear_loop : forall L s, MInv0 s ->
+  exists s', forM_ L clear_evt s = Ok tt s' /\ MInv0 s' /\
+    (forall e, In e L -> olist s' e = []) /\ (forall e, olist s e = [] -> olist s' e = []) /\ w_omax s' = w_omax s.
+Proof.
+  induction L as [|a L IH]; intros s HI; simpl.
+  - exists s. split; [reflexivity|]. split; [assumption|]. split; [intros ? []|]. split; auto.
+  - destruct (clear_step a s HI) as (s1 & E1 & HI1 & OL1 & M1).
+    destruct (IH s1 HI1) as (s2 & E2 & HI2 & A2 & B2 & M2).
+    exists s2. split; [unfold bind; rewrite E1; exact E2|]. split; [assumption|].
+    split; [|split; [|congruence]].
+    + intros e [<-|Hin]; [|auto]. apply B2. rewrite OL1, Nat.eqb_refl. reflexivity.
+    + intros e He. apply B2. rewrite OL1. destruct (Nat.eqb a e); [reflexivity|assumption].
+Qed.
+
+Lemma reset_spec : forall s, MInv s ->
+  exists s', reset_observers s = Ok tt s' /\ MInv s' /\ (forall e, olist s' e = []) /\ w_ototal s' = 0.
+Proof.
+  intros s [HI HT]. unfold reset_observers. unfold bind at 1, get at 1. cbv beta iota.
+  destruct (Nat.eqb_spec (w_ototal s) 0) as [E0|E0].
+  - unfold put. eexists. split; [reflexivity|].
+    assert (forall e, olist s e = []) as Hall.
+    { intro e. pose proof (lsum_ge e (w_olists s)) as H. rewrite olist_aget. destruct (aget e (w_olists s)); [reflexivity|simpl in H; lia]. }
+    split; [split|split; [exact Hall|exact E0]].
+    + apply (MInv0_ext s); [reflexivity..| |exact HI]. intros e He. exfalso. apply He. apply Hall.
+    + exact HT.
+  - change (forM_ (seq 0 (S (w_omax s))) _) with (forM_ (seq 0 (S (w_omax s))) clear_evt).
+    destruct (clear_loop (seq 0 (S (w_omax s))) s HI) as (s2 & E2 & HI2 & A2 & B2 & M2).
+    unfold bind at 1. rewrite E2. unfold modify. eexists. split; [reflexivity|].
+    assert (forall e, olist s2 e = []) as Hall.
+    { intro e. destruct (le_lt_dec e (w_omax s)) as [Hle|Hlt].
+      - apply A2. apply in_seq. lia.
+      - apply B2. destruct (olist s e) eqn:El; [reflexivity|]. exfalso.
+        assert (e <= w_omax s) by (apply mi_max; [assumption|congruence]). lia. }
+    split; [split|split; [exact Hall|reflexivity]].
+    + apply (MInv0_ext s2); [reflexivity..| |exact HI2]. intros e He. exfalso. apply He. apply Hall.
+    + cbn. symmetry. apply lsum_zero; [apply mi_keys; assumption|]. intro k. rewrite <- olist_aget. apply Hall.
+Qed.
+
+(** ** Reachable states satisfy the invariant *)
+
+Lemma init_inv : forall s, obs_init s -> MInv s.
+Proof.
+  intros s (H1 & H2 & H3 & H4 & H5 & H6).
+  assert (forall e, olist s e = []) as OL by (intro; unfold olist; rewrite H1; reflexivity).
+  assert (forall e, get_agg s e = agg0) as G by (intro; unfold get_agg; rewrite H2; reflexivity).
+  split; [constructor|].
+  - intros e j Hin. rewrite OL in Hin. destruct Hin.
+  - intro e. rewrite OL. constructor.
+  - intros j o Hj Hid. apply nth_error_In in Hj. destruct (H6 _ Hj) as (Hn & _). congruence.
+  - intro e. rewrite G, OL. reflexivity.
+  - intros e j o _ Hin. rewrite OL in Hin. destruct Hin.
+  - intros e j o _ _ Hin. rewrite OL in Hin. destruct Hin.
+  - rewrite H1. constructor.
+  - intros e He. rewrite OL in He. congruence.
+  - intros j o Hj Hr c Hc. apply nth_error_In in Hj. destruct (H6 _ Hj) as (_ & _ & _ & _ & _ & _ & Hrel). auto.
+  - rewrite H1, H3. reflexivity.
+Qed.
+
+Lemma step_inv : forall s o, MInv s -> MInv (ostep s o).
+Proof.
+  intros s [oi|oi|] HI; unfold ostep.
+  - apply add_inv; assumption.
+  - apply rem_inv; assumption.
+  - destruct (reset_spec s HI) as (s' & E & HI' & _). rewrite E. exact HI'.
+Qed.
+
+Lemma reach_inv : forall ops s, MInv s -> MInv (fold_left ostep ops s).
+Proof. induction ops as [|o ops IH]; intros s HI; simpl; [assumption|]. apply IH. apply step_inv. assumption. Qed.
+
+(** ** Soundness of the aggregate early-outs *)
+
+Lemma filter_nil : forall A (f : A -> bool) l, (forall x, In x l -> f x = false) -> filter f l = [].
+Proof.
+  induction l as [|a l IH]; intros H; simpl; [reflexivity|].
+  rewrite (H a) by (left; reflexivity). apply IH. intros; apply H; right; assumption.
+Qed.
+
+Lemma fired_nil : forall s evt pred,
+  (forall oi o, In oi (olist s evt) -> obj s oi = Some o -> pred o = false) -> fired s evt pred = [].
+Proof.
+  intros s evt pred H. unfold fired. apply filter_nil. intros oi Hin.
+  destruct (nth_error (w_obs s) oi) as [o|] eqn:E; [|reflexivity]. eapply H; eauto.
+Qed.
+
+Lemma reg_w : forall s evt oi o, MInv0 s -> g_anynowith (get_agg s evt) = false ->
+  In oi (olist s evt) -> obj s oi = Some o ->
+  o_haswith o = true /\ o_with o <> 0%N /\ mk_contains (g_allwith (get_agg s evt)) (o_with o) = true.
+Proof.
+  intros s evt oi o HI Hg Hin Ho. destruct (mi_aggw _ HI _ _ _ Hg Hin Ho) as [Hw Hc].
+  destruct (mi_lst _ HI _ _ Hin) as (o' & Ho' & _ & _ & HP & _). rewrite Ho in Ho'. inversion Ho'; subst o'.
+  auto.
+Qed.
+
+Lemma reg_c : forall s evt oi o, MInv0 s -> is_entity_event evt = false -> g_anynocomps (get_agg s evt) = false ->
+  In oi (olist s evt) -> obj s oi = Some o ->
+  o_hascomps o = true /\ o_comps o <> 0%N /\ mk_contains (g_allcomps (get_agg s evt)) (o_comps o) = true.
+Proof.
+  intros s evt oi o HI He Hg Hin Ho. destruct (mi_aggc _ HI _ _ _ He Hg Hin Ho) as [Hw Hc].
+  destruct (mi_lst _ HI _ _ Hin) as (o' & Ho' & _ & _ & _ & HP). rewrite Ho in Ho'. inversion Ho'; subst o'.
+  auto.
+Qed.
+
+Lemma early_with_sound : forall s evt m oi o, MInv0 s -> early_with m (get_agg s evt) = true ->
+  In oi (olist s evt) -> obj s oi = Some o -> p_with m o = false.
+Proof.
+  intros s evt m oi o HI He Hin Ho. unfold early_with in He. apply andb_true_iff in He. destruct He as [H1 H2].
+  apply negb_true_iff in H1, H2. destruct (reg_w _ _ _ _ HI H1 Hin Ho) as (Hw & Hnz & Hc).
+  unfold p_with. rewrite Hw, (disjoint_not_contained _ _ _ Hnz Hc H2). reflexivity.
+Qed.
+
+Lemma early_comps_sound : forall s evt m oi o, MInv0 s -> is_entity_event evt = false ->
+  early_comps m (get_agg s evt) = true -> In oi (olist s evt) -> obj s oi = Some o ->
+  (o_hascomps o && negb (mk_contains m (o_comps o)))%bool = true.
+Proof.
+  intros s evt m oi o HI Hent He Hin Ho. unfold early_comps in He. apply andb_true_iff in He. destruct He as [H1 H2].
+  apply negb_true_iff in H1, H2. destruct (reg_c _ _ _ _ HI Hent H1 Hin Ho) as (Hw & Hnz & Hc).
+  rewrite Hw, (disjoint_not_contained _ _ _ Hnz Hc H2). reflexivity.
+Qed.
+
+Lemma early_set_sound : forall s evt cm em oi o, MInv0 s -> is_entity_event evt = false ->
+  early_set cm em (get_agg s evt) = true -> In oi (olist s evt) -> obj s oi = Some o -> p_set cm em o = false.
+Proof.
+  intros s evt cm em oi o HI Hent He Hin Ho. unfold early_set in He. apply orb_true_iff in He. unfold p_set.
+  destruct He as [He|He].
+  - rewrite (early_comps_sound _ _ _ _ _ HI Hent He Hin Ho). reflexivity.
+  - rewrite (early_with_sound _ _ _ _ _ HI He Hin Ho). apply andb_false_r.
+Qed.
+
+Lemma early_add_sound : forall s evt old new oi o, MInv0 s -> is_entity_event evt = false ->
+  early_add old new (get_agg s evt) = true -> In oi (olist s evt) -> obj s oi = Some o -> p_add old new o = false.
+Proof.
+  intros s evt old new oi o HI Hent He Hin Ho. unfold early_add in He. apply orb_true_iff in He. unfold p_add.
+  destruct He as [He|He].
+  - apply andb_true_iff in He. destruct He as [H1 H2]. apply negb_true_iff in H1.
+    destruct (reg_c _ _ _ _ HI Hent H1 Hin Ho) as (Hw & Hnz & Hc). rewrite Hw.
+    apply orb_true_iff in H2. destruct H2 as [H2|H2].
+    + apply negb_true_iff in H2. rewrite (disjoint_not_contained _ _ _ Hnz Hc H2). reflexivity.
+    + rewrite (covered_intersects _ _ _ Hnz Hc H2). rewrite orb_true_r. reflexivity.
+  - rewrite (early_with_sound _ _ _ _ _ HI He Hin Ho). apply andb_false_r.
+Qed.
+
+Lemma early_remove_sound : forall s evt old new oi o, MInv0 s -> is_entity_event evt = false ->
+  early_remove old new (get_agg s evt) = true -> In oi (olist s evt) -> obj s oi = Some o -> p_remove old new o = false.
+Proof.
+  intros s evt old new oi o HI Hent He Hin Ho. unfold early_remove in He. apply orb_true_iff in He. unfold p_remove.
+  destruct He as [He|He].
+  - apply andb_true_iff in He. destruct He as [H1 H2]. apply negb_true_iff in H1.
+    destruct (reg_c _ _ _ _ HI Hent H1 Hin Ho) as (Hw & Hnz & Hc). rewrite Hw.
+    apply orb_true_iff in H2. destruct H2 as [H2|H2].
+    + apply negb_true_iff in H2. rewrite (disjoint_not_contained _ _ _ Hnz Hc H2). reflexivity.
+    + rewrite (covered_intersects _ _ _ Hnz Hc H2). rewrite orb_true_r. reflexivity.
+  - rewrite (early_with_sound _ _ _ _ _ HI He Hin Ho). apply andb_false_r.
+Qed.
+
+(** ** The dispatch loop *)
+
+Definition sel (obs : list oobj) (pred : oobj -> bool) (oi : nat) : bool :=
+  match nth_error obs oi with Some o => pred o | None => false end.
+
+Lemma fire_loop_spec : forall cb pred e, cb_stable cb -> forall obs l s found, w_obs s = obs ->
+  (forall oi, In oi l -> nth_error obs oi <> None) ->
+  fire_loop cb pred e l found s =
+  (forM_ (filter (sel obs pred) l) (fun oi => cb oi e) ;;; ret (found || negb (is_nil (filter (sel obs pred) l)))%bool) s.
+Proof.
+  intros cb pred e Hcb obs l. induction l as [|a l IH]; intros s found Hs Hv.
+  - simpl. unfold bind, ret. rewrite orb_false_r. reflexivity.
+  - simpl fire_loop. unfold bind at 1, getO at 1, bind at 1, get at 1. cbv beta iota. rewrite Hs.
+    simpl filter.
+    destruct (nth_error obs a) as [o|] eqn:Ea; [|exfalso; apply (Hv a); [left; reflexivity|assumption]].
+    assert (sel obs pred a = pred o) as Esel by (unfold sel; rewrite Ea; reflexivity). rewrite Esel.
+    cbn [of_opt ret].
+    assert (forall oi, In oi l -> nth_error obs oi <> None) as Hv' by (intros; apply Hv; right; assumption).
+    destruct (pred o) eqn:Ep.
+    + destruct (Hcb a e s) as (s' & Ecb & Hobs & _).
+      simpl forM_. unfold bind at 1. rewrite Ecb.
+      rewrite (IH s' true (eq_trans Hobs Hs) Hv').
+      unfold bind. rewrite Ecb. simpl. rewrite orb_true_r. reflexivity.
+    + apply IH; assumption.
+Qed.
+
+Lemma fire_with_exact : forall cb evt early pred e eo s, cb_stable cb -> MInv0 s ->
+  (early (get_agg s evt) = true -> fired s evt pred = []) ->
+  fire_with cb evt early pred e eo s = dispatch_spec cb s evt pred e.
+Proof.
+  intros cb evt early pred e eo s Hcb HI He. unfold fire_with. unfold bind at 1, get at 1. cbv beta iota.
+  destruct (eo && early (get_agg s evt))%bool eqn:Eb.
+  - apply andb_true_iff in Eb. destruct Eb as [_ Eb]. unfold dispatch_spec. rewrite (He Eb). reflexivity.
+  - rewrite (fire_loop_spec cb pred e Hcb (w_obs s) (olist s evt) s false eq_refl).
+    + reflexivity.
+    + intros oi Hin. destruct (mi_lst _ HI _ _ Hin) as (o & Ho & _). unfold obj in Ho. congruence.
+Qed.
+
+(** ** The C08 theorems *)
+
+Lemma not_entity : forall evt,
+  evt = EvAddComponents \/ evt = EvRemoveComponents \/ evt = EvAddRelations \/ evt = EvRemoveRelations ->
+  is_entity_event evt = false.
+Proof. intros evt [ -> | [ -> | [ -> | -> ]]]; reflexivity. Qed.
 
 (** For every manager state reachable by any register / unregister / reset history, every event
     context and both values of earlyOut, dispatch equals the specification: it is independent of
@@ -10,7 +950,12 @@ Theorem dispatch_exact_entity :
   (evt = EvCreateEntity \/ evt = EvRemoveEntity) ->
   let s := fold_left ostep ops s0 in
   fire_with cb evt (early_with m) (p_with m) e eo s = dispatch_spec cb s evt (p_with m) e.
-Admitted.
+Proof.
+  intros s0 ops cb evt e m eo Hinit Hcb Hevt s.
+  assert (MInv s) as [HI _] by (apply reach_inv, init_inv; assumption). clearbody s.
+  apply fire_with_exact; [assumption..|]. intro He. apply fired_nil. intros oi o Hin Ho.
+  eapply early_with_sound; eauto.
+Qed.
 
 Theorem dispatch_exact_entity_rel :
   forall s0 ops cb evt e m eo, obs_init s0 -> cb_stable cb ->
@@ -18,21 +963,39 @@ Theorem dispatch_exact_entity_rel :
   let s := fold_left ostep ops s0 in
   fire_with cb evt (fun g => (early_comps m g || early_with m g)%bool) (p_entity_rel m) e eo s
   = dispatch_spec cb s evt (p_entity_rel m) e.
-Admitted.
+Proof.
+  intros s0 ops cb evt e m eo Hinit Hcb Hevt s.
+  assert (MInv s) as [HI _] by (apply reach_inv, init_inv; assumption). clearbody s.
+  assert (is_entity_event evt = false) as Hent by (apply not_entity; tauto).
+  apply fire_with_exact; [assumption..|]. intro He. apply fired_nil. intros oi o Hin Ho.
+  exact (early_set_sound s evt m m oi o HI Hent He Hin Ho).
+Qed.
 
 Theorem dispatch_exact_add :
   forall s0 ops cb evt e old new eo, obs_init s0 -> cb_stable cb ->
   (evt = EvAddComponents \/ evt = EvAddRelations) ->
   let s := fold_left ostep ops s0 in
   fire_with cb evt (early_add old new) (p_add old new) e eo s = dispatch_spec cb s evt (p_add old new) e.
-Admitted.
+Proof.
+  intros s0 ops cb evt e old new eo Hinit Hcb Hevt s.
+  assert (MInv s) as [HI _] by (apply reach_inv, init_inv; assumption). clearbody s.
+  assert (is_entity_event evt = false) as Hent by (apply not_entity; tauto).
+  apply fire_with_exact; [assumption..|]. intro He. apply fired_nil. intros oi o Hin Ho.
+  eapply early_add_sound; eauto.
+Qed.
 
 Theorem dispatch_exact_remove :
   forall s0 ops cb evt e old new eo, obs_init s0 -> cb_stable cb ->
   (evt = EvRemoveComponents \/ evt = EvRemoveRelations) ->
   let s := fold_left ostep ops s0 in
   fire_with cb evt (early_remove old new) (p_remove old new) e eo s = dispatch_spec cb s evt (p_remove old new) e.
-Admitted.
+Proof.
+  intros s0 ops cb evt e old new eo Hinit Hcb Hevt s.
+  assert (MInv s) as [HI _] by (apply reach_inv, init_inv; assumption). clearbody s.
+  assert (is_entity_event evt = false) as Hent by (apply not_entity; tauto).
+  apply fire_with_exact; [assumption..|]. intro He. apply fired_nil. intros oi o Hin Ho.
+  eapply early_remove_sound; eauto.
+Qed.
 
 (** Set, relation-change and custom events (any event type that is not an entity event). *)
 Theorem dispatch_exact_set :
@@ -40,7 +1003,12 @@ Theorem dispatch_exact_set :
   is_entity_event evt = false -> evt < 256 ->
   let s := fold_left ostep ops s0 in
   fire_with cb evt (early_set cm em) (p_set cm em) e eo s = dispatch_spec cb s evt (p_set cm em) e.
-Admitted.
+Proof.
+  intros s0 ops cb evt e cm em eo Hinit Hcb Hent _ s.
+  assert (MInv s) as [HI _] by (apply reach_inv, init_inv; assumption). clearbody s.
+  apply fire_with_exact; [assumption..|]. intro He. apply fired_nil. intros oi o Hin Ho.
+  eapply early_set_sound; eauto.
+Qed.
 
 (** The batch idiom (early-out on the first row only, stop when the first row fired nothing) equals
     per-entity dispatch when all rows share the masks: if nothing fires for the first entity,
@@ -48,7 +1016,7 @@ Admitted.
 Theorem fired_entity_independent :
   forall s evt pred, fired s evt pred = [] ->
   forall cb e, cb_stable cb -> dispatch_spec cb s evt pred e = Ok false s.
-Admitted.
+Proof. intros s evt pred H cb e _. unfold dispatch_spec. rewrite H. reflexivity. Qed.
 
 (** Registration state is exact: after any history an observer is in the list of its event iff it was
     registered and not unregistered since; the total count is the sum of the list lengths. *)
@@ -56,11 +1024,31 @@ Theorem total_count_exact :
   forall s0 ops, obs_init s0 ->
   let s := fold_left ostep ops s0 in
   w_ototal s = fold_left (fun acc kv => acc + length (snd kv)) (w_olists s) 0.
-Admitted.
+Proof.
+  intros s0 ops Hinit s.
+  assert (MInv s) as [_ HT] by (apply reach_inv, init_inv; assumption). clearbody s.
+  rewrite fold_left_lsum. exact HT.
+Qed.
 
 (** Reset unregisters everything, whatever event types are in use (including 255). *)
 Theorem reset_clears_all :
   forall s0 ops evt, obs_init s0 ->
   let s := ostep (fold_left ostep ops s0) OResetObs in
   olist s evt = [] /\ has_obs s evt = false /\ w_ototal s = 0.
-Admitted.
+Proof.
+  intros s0 ops evt Hinit s.
+  assert (MInv (fold_left ostep ops s0)) as HI by (apply reach_inv, init_inv; assumption).
+  destruct (reset_spec _ HI) as (s' & E & [HI' _] & Hall & HT).
+  subst s. change (ostep (fold_left ostep ops s0) OResetObs) with (state_of (reset_observers (fold_left ostep ops s0))).
+  rewrite E. simpl. split; [apply Hall|]. split; [|exact HT].
+  unfold has_obs. rewrite (mi_has _ HI'), Hall. reflexivity.
+Qed.
+
+Print Assumptions dispatch_exact_entity.
+Print Assumptions dispatch_exact_entity_rel.
+Print Assumptions dispatch_exact_add.
+Print Assumptions dispatch_exact_remove.
+Print Assumptions dispatch_exact_set.
+Print Assumptions fired_entity_independent.
+Print Assumptions total_count_exact.
+Print Assumptions reset_clears_all.
